@@ -51,6 +51,8 @@ def run(repo: Repo, chk: Check):
                       "name hash, slot index, type, batch mode, address, value; shared with R09.e)", floor=14)
     chk.rule("R01.k", "a return omits the jump to the function's end label only when it is the last statement of the function body "
                       "(inside a loop or branch it would fall onto the loop's back jump / the ra logic would miss the exit; shared with R06.h)", floor=1)
+    chk.rule("R01.n", "at a call all arguments are evaluated before the first one is stored (the stores and the jal go to the call's own "
+                      "fragment, after the fragments of the argument nodes), and the result is read after the jal (shared with R06.g)", floor=3)
     chk.rule("R01.j", "an expression folded at compile time is evaluated with the operator its table row names and with the "
                       "semantics of the instruction emitted when it is not folded (shared with R03.a/b)", floor=40)
     chk.rule("R01.i", "constant-list indexing: every select picks the element whose index the condition encodes", floor=3)
@@ -69,6 +71,8 @@ def run(repo: Repo, chk: Check):
     chk.guarded(r09e, repo, chk, "R01.l")
     from .c06 import r06h
     chk.guarded(r06h, repo, chk, "R01.k")
+    from .c06 import r06g
+    chk.guarded(r06g, repo, chk, "R01.n")
     from .c03 import fold_table_rows
     chk.guarded(fold_table_rows, repo, chk, "R01.j", "R01.j")
 
